@@ -389,7 +389,7 @@ PROPS["C07"] = {
                   "shift-invariant, finite for huge inputs) plus a strided sweep of all bit patterns for the five element-wise activations in both directions",
     "level_note": "smooth activations are compared with a double-precision evaluation of the specification's term within 1e-5; the sweep is strided",
     "rule": "one case = one (activation, direction, rank, grid class) with all its grid points, or one soft-max vector; sweep units = (activation, direction); all distinct; non-trivial = all",
-    "mc": [{"module": "MC_C07", "consts": {"quick": {"SoftLens": "{1, 2, 3, 4, 5, 6, 7, 9, 10, 11, 12}"}, "thorough": {"SoftLens": "{1, 2, 3, 4, 5, 6, 7, 8, 9, 10, 11, 12}"}},
+    "mc": [{"module": "MC_C07", "consts": {"quick": {"SoftLens": "{1, 2, 3, 4, 5, 6, 7, 9, 10, 11, 12, 13, 14}"}, "thorough": {"SoftLens": "{1, 2, 3, 4, 5, 6, 7, 8, 9, 10, 11, 12, 13, 14}"}},
             "workers": 4, "after": {"cmd": "sweep-activations", "arg": {"quick": 4099, "thorough": 13}}}],
     "assumptions": TERM_ASSUME + ["the double-precision libm functions exp/tanh/cosh are accurate to far better than 1e-5"],
 }
